@@ -30,4 +30,4 @@ def run(ctx):
     return [r_skip.rule_skip_edge(ctx, "C09", statuses=("NotInRange",)), r_skip.rule_block_path(ctx, "C09"),
             r_skip.rule_post(ctx, "C09"), r_skip.rule_eof(ctx, "C09"),
             r_skip.rule_sort_guard(ctx, "C09", must_block=("NotInRange",)),
-            r_range.rule_range(ctx, "C09"), r_indent.rule_indent(ctx, "C09"), r_skip.rule_field_walkers(ctx, "C09"), p_c07.rule_parse_input(ctx, "C09"), r_raw.rule_once(ctx, "C09"), r_skip.rule_descend(ctx, "C09")]
+            r_range.rule_range(ctx, "C09"), r_indent.rule_indent(ctx, "C09"), r_skip.rule_field_walkers(ctx, "C09"), p_c07.rule_parse_input(ctx, "C09"), r_raw.rule_once(ctx, "C09"), r_skip.rule_descend(ctx, "C09"), r_range.rule_toggle_ignores_range(ctx, "C09")]
